@@ -115,13 +115,27 @@ def _ceil(x):
 
 # ------------------------------------------------------------------------------------------------ I_boot
 class LeafStubs:
-    def __init__(self, ctx):
+    """uf=False: every leaf returns fresh arbitrary reals (over-approximation: nothing is assumed, not even determinism);
+    uf=True: every leaf is an uninterpreted function of the arguments it is given (equal arguments -> equal results), used by the
+    2-safety cases of C10"""
+
+    def __init__(self, ctx, uf=False):
         self.ctx = ctx
         self.n = 0
+        self.uf = uf
 
-    def fresh(self, shape, tag):
+    def fresh(self, shape, tag, args=None):
         self.n += 1
         c = self.ctx
+        if self.uf:
+            from engine import stubs as ST
+
+            size = int(np.prod(shape))
+            vals = ST.stub_values(c, "BS_%s_%s" % (tag, "x".join(map(str, shape))), ST.cells(*[a for a in (args or []) if a is not None]), size,
+                                  label="%s%d" % (tag, self.n))
+            a = np.empty(size, dtype=object if not getattr(c, "concrete", False) else float)
+            a[:] = vals
+            return a.reshape(shape)
         a = np.empty(shape, dtype=object if not getattr(c, "concrete", False) else float)
         for idx in np.ndindex(*shape):
             a[idx] = c.real("%s%d_%s" % (tag, self.n, "_".join(map(str, idx))), -10 ** 6, 10 ** 6)
@@ -143,22 +157,23 @@ class LeafStubs:
             L.fit_x.append(np.asarray(x, dtype=object))
             self._ycols = y.shape[1] if y.ndim > 1 else 1
             self.normal_eqs = "NE"
-            self.coefficients = L.fresh((x.shape[1], self._ycols), "coef")
+            self._fit_args = [x, y, weights]
+            self.coefficients = L.fresh((x.shape[1], self._ycols), "coef", [x, y, weights])
 
         OLS.fit = ols_fit
         def ols_predict(self, x):
             L.predict_widths.append(x.shape[1])
-            return L.fresh((x.shape[0], self._ycols), "olsp")
+            return L.fresh((x.shape[0], self._ycols), "olsp", [x, self.coefficients])
 
         OLS.predict = ols_predict
-        OLS.residuals = lambda self, y, y_hat, loo=True, center=True: L.fresh(y.shape, "olsr")
-        BEM._estimate_epsilon = lambda self, residuals, agg: L.fresh((agg.shape[1], residuals.shape[1]), "eps")
+        OLS.residuals = lambda self, y, y_hat, loo=True, center=True: L.fresh(y.shape, "olsr", [y, y_hat] + self._fit_args[:1])
+        BEM._estimate_epsilon = lambda self, residuals, agg: L.fresh((agg.shape[1], residuals.shape[1]), "eps", [residuals, agg])
         BEM._estimate_strata_dist = lambda self, *a, **k: ({}, {})
         BEM._bootstrap_errors = lambda self, e1, e2, d1, d2, xs, *a: (
-            (L.fresh((e1.shape[0], self.B), "eyB"), L.fresh((e1.shape[0], self.B), "ezB")),
-            (L.fresh((xs.shape[0], self.B), "dyB"), L.fresh((xs.shape[0], self.B), "dzB")))
+            (L.fresh((e1.shape[0], self.B), "eyB", [e1, e2, d1, d2]), L.fresh((e1.shape[0], self.B), "ezB", [e1, e2, d1, d2])),
+            (L.fresh((xs.shape[0], self.B), "dyB", [e1, e2, d1, d2]), L.fresh((xs.shape[0], self.B), "dzB", [e1, e2, d1, d2])))
         BEM._sample_test_errors = lambda self, r1, r2, e1, e2, xts, *a: (
-            L.fresh((xts.shape[0], self.B), "ty"), L.fresh((xts.shape[0], self.B), "tz"))
+            L.fresh((xts.shape[0], self.B), "ty", [r1, r2, e1, e2, xts]), L.fresh((xts.shape[0], self.B), "tz", [r1, r2, e1, e2, xts]))
         return self
 
     def uninstall(self):
